@@ -137,6 +137,83 @@ Proof.
     + split; [exact I|]. intros s. rewrite Hk. cbn. now rewrite app_nil_r.
 Qed.
 
+(* ---------- per-field settings: the two passes ---------- *)
+Definition aligned (isc : string -> list fnode -> bool) (fs : fields) (slots : list (option (option pyval))) : Prop :=
+  Forall2 (fun kn slot => match slot with None => isc (fst kn) (snd kn) = true | Some _ => isc (fst kn) (snd kn) = false end) fs slots.
+
+Lemma pass2_bridge isc (rf : string -> list fnode -> M (option pyval)) (arf : string -> list fnode -> prog) :
+  (forall k ns, Bo (arf k ns) (rf k ns)) -> forall fs slots, aligned isc fs slots ->
+  let cs := map (fun kn => arf (fst kn) (snd kn)) (filter (fun kn => isc (fst kn) (snd kn)) fs) in
+  kvs_shaped (merge_fields (map fst fs) (interleave slots (fst (run_seqs O cs)))) /\
+  forall s, mixed_pass2 rf fs slots s =
+            (out_kvs (merge_fields (map fst fs) (interleave slots (fst (run_seqs O cs)))),
+             apply_events (snd (run_seqs O cs)) s).
+Proof.
+  intros H fs slots Ha. induction Ha as [|[k ns] slot rest srest Hs Ha [IHs IH]];
+    cbn [map filter fst snd mixed_pass2 interleave merge_fields run_seqs].
+  - split; [exact I|]. intros s. now rewrite apply_events_nil.
+  - destruct slot as [o|]; cbn [fst snd] in Hs; rewrite Hs; cbn [map run_seqs interleave merge_fields].
+    + cbv zeta in IHs, IH.
+      set (cs := map (fun kn => arf (fst kn) (snd kn)) (filter (fun kn => isc (fst kn) (snd kn)) rest)) in *.
+      destruct (merge_fields (map fst rest) (interleave srest (fst (run_seqs O cs)))) as [v'|o'|kv'|l'|e'] eqn:Em; try destruct IHs.
+      * split; [destruct o; exact I|]. intros s. rewrite IH. destruct o; try reflexivity.
+      * split; [destruct o; exact I|]. intros s. rewrite IH. destruct o; reflexivity.
+      * split; [destruct o; exact I|]. intros s. rewrite IH. destruct o; reflexivity.
+    + cbv zeta in IHs, IH. destruct (H k ns) as [Hshape Hk]. cbn [fst snd].
+      set (cs := map (fun kn => arf (fst kn) (snd kn)) (filter (fun kn => isc (fst kn) (snd kn)) rest)) in *.
+      destruct (rs (arf k ns)) as [r e1] eqn:E1. destruct (run_seqs O cs) as [rl e2] eqn:E2. cbn [fst snd interleave merge_fields] in *.
+      split.
+      * destruct r; try destruct Hshape; destruct (merge_fields (map fst rest) (interleave srest rl)); try destruct IHs; try exact I;
+          try (destruct o; exact I).
+      * intros s. rewrite Hk, IH, apply_events_app.
+        destruct r as [v|o|kv|l|e]; try destruct Hshape;
+          destruct (merge_fields (map fst rest) (interleave srest rl)) as [v'|o'|kv'|l'|e']; try destruct IHs; cbn [out_opt out_kvs];
+          try reflexivity; destruct o; reflexivity.
+Qed.
+
+Lemma pass1_bridge isc (rf : string -> list fnode -> M (option pyval)) (arf : string -> list fnode -> prog) :
+  (forall k ns, Bo (arf k ns) (rf k ns)) -> forall fs (k : list (option (option pyval)) -> prog)
+    (mk : list (option (option pyval)) -> M (list (string * pyval))),
+  (forall slots, aligned isc fs slots -> Bk (k slots) (mk slots)) ->
+  Bk (a_mixed_pass1 isc arf fs k)
+     (fun s => match mixed_pass1 isc rf fs s with
+               | (OVal slots, s1) => mk slots s1
+               | (OExc l, s1) => (OExc l, s1)
+               | (OCrash e, s1) => (OCrash e, s1)
+               end).
+Proof.
+  intros H. induction fs as [|[key ns] rest IH]; intros k mk Hk; cbn [a_mixed_pass1 mixed_pass1].
+  - apply Hk. constructor.
+  - destruct (isc key ns) eqn:Ec.
+    + specialize (IH (fun slots => k (None :: slots)) (fun slots => mk (None :: slots))).
+      destruct IH as [IHs IHm].
+      { intros slots Ha. apply Hk. constructor; [exact Ec|exact Ha]. }
+      split; [exact IHs|]. intros s. rewrite <- IHm.
+      destruct (mixed_pass1 isc rf rest s) as [[slots|l|e] s1]; reflexivity.
+    + destruct (H key ns) as [Hshape Hf]. unfold Bk. rewrite rs_bind.
+      destruct (rs (arf key ns)) as [r e1] eqn:E1. cbn [fst snd] in *.
+      destruct r as [v|o|kv|l|e]; try destruct Hshape.
+      * specialize (IH (fun slots => k (Some o :: slots)) (fun slots => mk (Some o :: slots))).
+        destruct IH as [IHs IHm].
+        { intros slots Ha. apply Hk. constructor; [exact Ec|exact Ha]. }
+        split; [exact IHs|]. intros s. rewrite Hf. cbn [out_opt]. rewrite apply_events_app, <- IHm.
+        destruct (mixed_pass1 isc rf rest (apply_events e1 s)) as [[slots|l|e] s1]; reflexivity.
+      * split; [exact I|]. intros s. rewrite Hf. cbn. now rewrite app_nil_r.
+      * split; [exact I|]. intros s. rewrite Hf. cbn. now rewrite app_nil_r.
+Qed.
+
+Lemma mixed_bridge isc (rf : string -> list fnode -> M (option pyval)) (arf : string -> list fnode -> prog) :
+  (forall k ns, Bo (arf k ns) (rf k ns)) -> forall fs,
+  Bk (a_exec_fields_mixed isc arf fs) (exec_fields_mixed isc rf fs).
+Proof.
+  intros H fs. unfold a_exec_fields_mixed.
+  apply (pass1_bridge isc rf arf H fs _ (fun slots => mixed_pass2 rf fs slots)).
+  intros slots Ha. destruct (pass2_bridge isc rf arf H fs slots Ha) as [Hs Hm]. cbv zeta in Hs, Hm.
+  unfold Bk. rewrite run_seq_gather.
+  set (cs := map (fun kn => arf (fst kn) (snd kn)) (filter (fun kn => isc (fst kn) (snd kn)) fs)) in *.
+  cbn [run_seq fst snd]. split; [exact Hs|]. intros s. rewrite Hm, app_nil_r. reflexivity.
+Qed.
+
 Definition arf_bridge (arf : arfun) (rf : rfun) : Prop :=
   forall otype value opath k ns, Bo (arf otype value opath k ns) (rf otype value opath k ns).
 
@@ -147,19 +224,12 @@ Proof.
   intros H. unfold Bv, a_exec_sub, exec_sub.
   destruct (collect_subfields sch doc vs COLLECT_FUEL otype nodes [] []) as [sub|].
   2:{ split; [exact I|]. intros s. cbn. now rewrite apply_events_nil. }
-  destruct (parent_concurrently cfg).
-  - rewrite run_seq_gather.
-    destruct (conc_bridge (fun k ns => rf otype value opath k ns) (fun k ns => arf otype value opath k ns)
-                          (fun k ns => H otype value opath k ns) sub) as [Hs Hc].
-    set (cs := map (fun kn => arf otype value opath (fst kn) (snd kn)) sub) in *.
-    destruct (merge_fields (map fst sub) (fst (run_seqs O cs))) as [v|o|kv|l|e] eqn:Em; try destruct Hs;
-      cbn [run_seq fst snd]; (split; [exact I|]); intros s; rewrite Hc, app_nil_r; reflexivity.
-  - rewrite rs_bind.
-    destruct (seq_bridge (fun k ns => rf otype value opath k ns) (fun k ns => arf otype value opath k ns)
+  rewrite rs_bind.
+  destruct (mixed_bridge (field_conc cfg otype) (fun k ns => rf otype value opath k ns) (fun k ns => arf otype value opath k ns)
                          (fun k ns => H otype value opath k ns) sub) as [Hs Hc].
-    set (p := sequence_abort (map (fun kn => (fst kn, arf otype value opath (fst kn) (snd kn))) sub)) in *.
-    destruct (fst (rs p)) as [v|o|kv|l|e] eqn:Em; try destruct Hs;
-      cbn [run_seq fst snd]; (split; [exact I|]); intros s; rewrite Hc, app_nil_r; reflexivity.
+  set (p := a_exec_fields_mixed (field_conc cfg otype) (fun k ns => arf otype value opath k ns) sub) in *.
+  destruct (fst (rs p)) as [v|o|kv|l|e] eqn:Em; try destruct Hs;
+    cbn [run_seq fst snd]; (split; [exact I|]); intros s; rewrite Hc, app_nil_r; reflexivity.
 Qed.
 
 (* ---------- list items: gather or one by one, the same thing when nothing suspends ---------- *)
@@ -329,12 +399,13 @@ Variable ptype : string.
 Variable fd : field_def.
 Variable nodes : list fnode.
 Variable fpath : list pkey.
+Variable lc : bool.
 
-Lemma item_bridge t (IH : forall v p, Bv (a_coerce_output cfg nodes (a_leaf sch doc vs U cfg arf ptype fd nodes fpath) t v p)
+Lemma item_bridge t (IH : forall v p, Bv (a_coerce_output nodes (a_leaf sch doc vs U cfg arf ptype fd nodes fpath) lc t v p)
                                           (coerce_output nodes (leaf_coercer sch doc vs U cfg rf ptype fd nodes fpath) t v p)) x ip :
   Bv (bind (match is_exc_value x with
             | Some e => Ret (RExc [e])
-            | None => a_coerce_output cfg nodes (a_leaf sch doc vs U cfg arf ptype fd nodes fpath) t x ip
+            | None => a_coerce_output nodes (a_leaf sch doc vs U cfg arf ptype fd nodes fpath) lc t x ip
             end)
            (fun r => match r with
                      | RExc l => a_handle_field_error l nodes ip t
@@ -363,7 +434,7 @@ Proof.
 Qed.
 
 Lemma coerce_output_bridge t : forall v p,
-  Bv (a_coerce_output cfg nodes (a_leaf sch doc vs U cfg arf ptype fd nodes fpath) t v p)
+  Bv (a_coerce_output nodes (a_leaf sch doc vs U cfg arf ptype fd nodes fpath) lc t v p)
      (coerce_output nodes (leaf_coercer sch doc vs U cfg rf ptype fd nodes fpath) t v p).
 Proof.
   induction t as [n|t IH|t IH]; intros v p.
@@ -381,7 +452,7 @@ Proof.
     { intros q Eq. unfold Bv. rewrite Eq. cbn [fst snd]. split.
       - destruct (collect_item_results (fst (run_seqs O progs))) as [[]| | | |]; try destruct Hs; exact I.
       - intros s. rewrite Hc. destruct (collect_item_results (fst (run_seqs O progs))) as [[]| | | |]; try destruct Hs; reflexivity. }
-    destruct (list_concurrently cfg).
+    destruct lc.
     + apply Hrun. rewrite run_seq_gather. cbn [run_seq]. now rewrite app_nil_r.
     + apply Hrun. rewrite rs_sequence. cbn [run_seq fst snd]. now rewrite app_nil_r.
   - cbn [a_coerce_output coerce_output].
@@ -435,7 +506,7 @@ Lemma complete_bridge arf rf ptype fd nodes path (Hrf : arf_bridge arf rf) (raw 
             | RVal v =>
                 match is_exc_value v with
                 | Some e => Ret (RExc [e])
-                | None => a_coerce_output cfg nodes (a_leaf sch doc vs U cfg arf ptype fd nodes path) (fd_type fd) v path
+                | None => a_coerce_output nodes (a_leaf sch doc vs U cfg arf ptype fd nodes path) (match field_list cfg ptype (fd_name fd) with Some b => b | None => list_concurrently cfg end) (fd_type fd) v path
                 end
             | other => Ret other
             end)
@@ -478,7 +549,7 @@ Proof.
   destruct raw as [v|o|kv|l|e]; try destruct Hraw; cbn [out_val].
   - destruct (is_exc_value v) as [ex|].
     + eapply Bo_ext; [|apply (Bo_bind _ _ _ g (Bv_ret_exc [ex]) Hg)]. intros s. unfold g. reflexivity.
-    + eapply Bo_ext; [|apply (Bo_bind _ _ _ g (coerce_output_bridge arf rf Hrf ptype fd nodes path (fd_type fd) v path) Hg)].
+    + eapply Bo_ext; [|apply (Bo_bind _ _ _ g (coerce_output_bridge arf rf Hrf ptype fd nodes path _ (fd_type fd) v path) Hg)].
       intros s. unfold g. cbn beta. destruct (coerce_output nodes _ (fd_type fd) v path s) as [[v'|l'|e'] s2]; reflexivity.
   - eapply Bo_ext; [|apply (Bo_bind _ _ _ g (Bv_ret_exc l) Hg)]. intros s. unfold g. reflexivity.
   - eapply Bo_ext; [|apply (Bo_bind _ _ _ g (Bv_ret_crash e) Hg)]. intros s. unfold g. reflexivity.
@@ -519,7 +590,7 @@ Proof.
                | RVal v =>
                    match is_exc_value v with
                    | Some e => Ret (RExc [e])
-                   | None => a_coerce_output cfg (node :: rest) (a_leaf sch doc vs U cfg arf ptype fd (node :: rest) path) (fd_type fd) v path
+                   | None => a_coerce_output (node :: rest) (a_leaf sch doc vs U cfg arf ptype fd (node :: rest) path) (match field_list cfg ptype (fd_name fd) with Some b => b | None => list_concurrently cfg end) (fd_type fd) v path
                    end
                | other => Ret other
                end)
@@ -603,18 +674,13 @@ Proof.
     finish_state (exec_fields_seq rf fs st0)).
   { rewrite rs_bind. cbn [fst snd]. destruct (seq_bridge rf arf Hk fs) as [Hs Hc].
     rewrite finish_bridge by exact Hs. now rewrite Hc. }
-  assert (Hconc :
-    response_of (fst (rs (Gather (map (fun kn => arf (fst kn) (snd kn)) fs) (fun rl => finish_prog (merge_fields (map fst fs) rl)))))
-                (snd (rs (Gather (map (fun kn => arf (fst kn) (snd kn)) fs) (fun rl => finish_prog (merge_fields (map fst fs) rl))))) =
-    finish_state (exec_fields_conc rf fs st0)).
-  { rewrite run_seq_gather. destruct (conc_bridge rf arf Hk fs) as [Hs Hc].
-    set (x := merge_fields (map fst fs) (fst (run_seqs O (map (fun kn => arf (fst kn) (snd kn)) fs)))) in *.
-    destruct (rs (finish_prog x)) as [r ev] eqn:Ef. cbn [fst snd].
-    replace r with (fst (rs (finish_prog x))) by now rewrite Ef.
-    replace ev with (snd (rs (finish_prog x))) by now rewrite Ef.
+  assert (Hmixed :
+    response_of (fst (rs (bind (a_exec_fields_mixed (field_conc cfg rt) arf fs) finish_prog)))
+                (snd (rs (bind (a_exec_fields_mixed (field_conc cfg rt) arf fs) finish_prog))) =
+    finish_state (exec_fields_mixed (field_conc cfg rt) rf fs st0)).
+  { rewrite rs_bind. cbn [fst snd]. destruct (mixed_bridge (field_conc cfg rt) rf arf Hk fs) as [Hs Hc].
     rewrite finish_bridge by exact Hs. now rewrite Hc. }
-  destruct (o_kind op); [destruct (parent_concurrently cfg)| |destruct (parent_concurrently cfg)];
-    first [exact Hconc|exact Hserial].
+  destruct (o_kind op); first [exact Hmixed|exact Hserial].
 Qed.
 
 End Bridge.
